@@ -62,12 +62,25 @@ def check_case(m, mult, lbmode, xdts, stats=None):
     hi = max(lens.values())
     supplied = 0 if lbmode == 0 else lo
     try:
-        inst = Instance("c05", supplied, np.array(m, np.int64), mult)
+        src = np.array(m, np.int64)
+        inst = Instance("c05", supplied, src, mult)
+        # hand the matrix over once more in the very type the instance chose
+        # for storage, then overwrite the caller's buffer: the instance must
+        # hold its own copy ("the stored matrix equals the given one")
+        src2 = np.array(m, inst.dtype)
+        inst2 = Instance("c05", supplied, src2, mult)
+        src2.fill(1)
+        src.fill(1)
     except Exception as e:  # noqa  (a loud rejection is not a violation)
         return ("rejected", f"{type(e).__name__}: {e}")
     f = TourLength(inst)
     base = {"matrix": m, "mult": mult, "lbmode": lbmode,
             "supplied_lower_bound": supplied}
+    if np.asarray(inst2).tolist() != m:
+        return ("bad", "stored", dict(
+            base, observed=np.asarray(inst2).tolist(), expected=m,
+            note=f"matrix handed over as {inst.dtype} array that the caller "
+                 "overwrote afterwards"))
     if inst.n_cities != n or inst.shape != (n, n):
         return ("bad", "attr", dict(base, observed=[inst.n_cities,
                                                     list(inst.shape)]))
